@@ -3,6 +3,9 @@
 from .frontend import PRIMITIVES
 
 CLASSES = list(PRIMITIVES)
+# fan-out classes with a quantity of their own: a failure of *that* function (exception or wrong type) is inside the C12
+# guarantee (only children filled before a failing sibling are outside it)
+OWN_QUANTITY_FANOUT = ["Fraction", "Stack"]
 SINGLE_PATH = ["Bag", "Count", "Sum", "Average", "Deviate", "Minimize", "Maximize", "Bin", "SparselyBin", "CentrallyBin", "IrregularlyBin", "Categorize", "Select"]
 
 # method-kind -> properties that have clauses on it
@@ -32,7 +35,7 @@ def method_tasks(prop):
                 continue
             if (K, kind) in STANDIN:
                 continue
-            if kind == "fill-rollback" and K not in SINGLE_PATH:
+            if kind == "fill-rollback" and K not in SINGLE_PATH + OWN_QUANTITY_FANOUT:
                 continue
             out.append(("method", K, kind))
     if prop == "C06":
